@@ -138,3 +138,25 @@ def show(d):
         return base + (str(c) if c else '') + ('(' + sym(content) + ')' if content else '')
 
     return ' / '.join(' '.join(sym(o) for o in row) for row in rows) + f' | agent=({y},{x}){h} held={sym(held)}'
+
+
+_KNOWN = {'Grid': {'objects', 'shape', 'area'}, 'Agent': {'transform', 'grid_object'}, 'Transform': {'position', 'orientation'}}
+_KNOWN_OBJ = {'state', 'color', 'content'}
+
+
+def hidden_fp(st):
+    """fingerprint of any instance attribute the implementation keeps on a state's objects beyond the fields the
+    canonical descriptor covers (memoised hashes, lookup masks, ...).  Empty for the current library; when a change
+    adds such an attribute, states that differ in it are different search states (they may have different futures)."""
+    out = []
+    for obj in (st.grid, st.agent, st.agent.transform):
+        known = _KNOWN.get(type(obj).__name__, set())
+        for k, v in sorted(getattr(obj, '__dict__', {}).items()):
+            if k not in known:
+                out.append((type(obj).__name__, k, repr(v)[:400]))
+    for row in st.grid.objects:
+        for o in row:
+            for k, v in sorted(getattr(o, '__dict__', {}).items()):
+                if k not in _KNOWN_OBJ:
+                    out.append((type(o).__name__, k, repr(v)[:100]))
+    return tuple(out)
